@@ -48,7 +48,11 @@ def mk(head, rng, ifr, size, cs, ctype="text/plain", name=None):
     fname = "f%d.bin" % size
     if name or ctype == "application/octet-stream":
         dn = name or fname
-        disp = 'attachment; filename="%s"; filename*=utf-8\'\'%s' % (dn, quote(dn))
+        try:
+            dn.encode("latin-1")
+            disp = 'attachment; filename="%s"; filename*=utf-8\'\'%s' % (dn, quote(dn))
+        except UnicodeEncodeError:  # header text must be Latin-1: only the RFC 5987 form can carry the name
+            disp = "attachment; filename*=utf-8''%s" % quote(dn)
     return ["file", 1 if head else 0, [rng] if rng is not None else [], [ifr] if ifr is not None else [],
             content(size), cs, etag, lm, ctype, [disp] if disp is not None else [], BOUNDARY, name or ""]
 
